@@ -1135,6 +1135,10 @@ func hbtRealtime(T time.Duration, ticks int, attach bool, script []string, slow 
 	}
 	// judge a sequence of refresh instants against the windows
 	var gapsAll []time.Duration
+	// notifications are written one subscriber after the other inside SetData: behind a subscriber whose connection
+	// takes `slow` per write a notification ARRIVES up to `slow` after its refresh began (the gaps between arrivals
+	// are not affected). Zero for the feature's own data.
+	arrivalLag := time.Duration(0)
 	judge := func(who string, times []time.Time, ctrs []uint64, wdws []window, collect bool) {
 		for _, wd := range wdws {
 			var in []int
@@ -1143,7 +1147,7 @@ func hbtRealtime(T time.Duration, ticks int, attach bool, script []string, slow 
 					in = append(in, i)
 				}
 			}
-			if lim := T + slack + 2*rtLate(wd.from, wd.from.Add(T+slack)); len(in) == 0 || times[in[0]].Sub(wd.from) > lim {
+			if lim := T + slack + arrivalLag + 2*rtLate(wd.from, wd.from.Add(T+slack)); len(in) == 0 || times[in[0]].Sub(wd.from) > lim {
 				rtFail(wd.from, wd.from.Add(lim), "C16/period-exceeds-timeout", fmt.Sprintf("%s: no refresh within %v after operation %d (%s) returned", who, lim, wd.n, wd.after))
 				continue
 			}
@@ -1261,7 +1265,9 @@ func hbtRealtime(T time.Duration, ticks int, attach bool, script []string, slow 
 				early = append(early, wd)
 			}
 		}
+		arrivalLag = slow
 		judge(who, nt, nc, early, false)
+		arrivalLag = 0
 		final(who, nt, 0)
 	}
 	sort.Slice(gaps, func(i, j int) bool { return gaps[i] < gaps[j] })
